@@ -212,6 +212,8 @@ func (c *Fn) LenExprs(x ssa.Value, d int) []string {
 		}
 	case *ssa.ChangeType:
 		out = append(out, c.LenExprs(v.X, d+1)...)
+	case *ssa.Call:
+		out = append(out, c.builtLen(v)...)
 	case *ssa.Phi:
 		var common map[string]bool
 		for _, e := range v.Edges {
@@ -235,6 +237,81 @@ func (c *Fn) LenExprs(x ssa.Value, d int) []string {
 		}
 		sort.Strings(ks)
 		out = append(out, ks...)
+	}
+	return out
+}
+
+// builtLen: the call returns a slice that a helper of the repository makes
+// with len(<parameter>.<field>) elements on every path; when the helper does
+// not write that field, this is the length of the same field of the argument
+// at the call, named through a load of it in this function that sees the
+// same version.
+func (c *Fn) builtLen(call *ssa.Call) []string {
+	g := call.Common().StaticCallee()
+	if g == nil || !c.E.IsRepo(g) || len(g.Blocks) == 0 || g.Signature.Results().Len() != 1 {
+		return nil
+	}
+	var mk *ssa.MakeSlice
+	for _, ret := range ssau.ReturnsOf(g) {
+		m, ok := ret.Results[0].(*ssa.MakeSlice)
+		if !ok || (mk != nil && mk != m) {
+			return nil
+		}
+		mk = m
+	}
+	if mk == nil {
+		return nil
+	}
+	lc, ok := mk.Len.(*ssa.Call)
+	if !ok || ssau.CallName(lc) != "builtin.len" {
+		return nil
+	}
+	ld, ok := lc.Common().Args[0].(*ssa.UnOp)
+	if !ok || ld.Op != token.MUL {
+		return nil
+	}
+	fa, ok := ld.X.(*ssa.FieldAddr)
+	if !ok {
+		return nil
+	}
+	p, ok := fa.X.(*ssa.Parameter)
+	if !ok {
+		return nil
+	}
+	gf := c.E.Sx.Of(g)
+	if gf.Version(ld) != "0" {
+		return nil // the helper changed the field before sizing the slice
+	}
+	key, _ := gf.LoadKey(ld)
+	if key == "" || c.E.Sx.MayWrite(g, key) {
+		return nil
+	}
+	pi := -1
+	for i, q := range g.Params {
+		if q == p {
+			pi = i
+		}
+	}
+	if pi < 0 || pi >= len(call.Common().Args) {
+		return nil
+	}
+	arg := call.Common().Args[pi]
+	ver := c.F.VersionBefore(call, key)
+	var out []string
+	for _, b := range c.fn.Blocks {
+		for _, in := range b.Instrs {
+			u, ok := in.(*ssa.UnOp)
+			if !ok || u.Op != token.MUL {
+				continue
+			}
+			fa2, ok := u.X.(*ssa.FieldAddr)
+			if !ok || fa2.Field != fa.Field || ssau.FieldOwner(fa2) != ssau.FieldOwner(fa) {
+				continue
+			}
+			if c.F.E(fa2.X) == c.F.E(arg) && c.F.Version(u) == ver {
+				out = append(out, "len("+c.F.E(u)+")")
+			}
+		}
 	}
 	return out
 }
